@@ -32,7 +32,7 @@ TEXTS = {
          "Each generated program is run under a generated segmentation (bounded runs with cuts on / between / before / beyond event times, steps, stop-start pauses placed deterministically after event k; optionally bounds of the other numeric type and an earlier replication of another length on the same simulator); per piece the reference semantics must hold and the whole must equal one uninterrupted run on a fresh simulator. Exploration of the segmentation space by generation; the pause mechanism owns the schedule, so results are deterministic.",
          "Trusts RefSim; a bound before the clock may be refused or ignored (the property does not say which)."),
  "C04": ("bounded-exhaustive enumeration of command sequences + enumerated rendezvous schedules + Hypothesis sequences, against a protocol model and a notification grammar",
-         "ALL command sequences over a 13-letter alphabet up to length 4 (quick) / 6 (thorough) and Hypothesis sequences up to length 10 are compared with a protocol model written from the docstrings and a notification grammar; 115 enumerated overlaps of a command with the run thread's transitions (the harness owns the schedule through listener/handler rendezvous) and rapid start/stop alternation must end in a consistent quiescent state, without limbo, with every event executed exactly once. Exhaustive only up to the stated bounds and rendezvous points.",
+         "ALL command sequences over a 14-letter alphabet up to length 4 (quick) / 6 (thorough) and Hypothesis sequences up to length 10 are compared with a protocol model written from the docstrings and a notification grammar; 115 enumerated overlaps of a command with the run thread's transitions (the harness owns the schedule through listener/handler rendezvous) and rapid start/stop alternation must end in a consistent quiescent state, without limbo, with every event executed exactly once. Exhaustive only up to the stated bounds and rendezvous points.",
          "Interleavings are forced only at notification/handler rendezvous points; races whose window contains no such point are not explored (DESIGN.md section 7). Trusts the protocol model in props/c04_lifecycle.py."),
  "C05": ("metamorphic property testing with fault injection: every single fault index for small programs, generated subsets otherwise",
          "Handlers chosen by the generator (for programs with <= 16 executed events: EVERY single index in turn) raise after performing their actions (eight kinds of exception, plain SimEvents or a user event class that does not wrap failures); under the three non-terminating strategies (set with/without log level, before or after (re-)initialize, changed by handlers), under start, bounded runs and steps, trace, clock, state and pending count must equal the fault-free reference run after every command. Fault enumeration is exhaustive per small program, generated otherwise.",
